@@ -701,9 +701,13 @@ func (i *interpreter) checkSizeAgainstLimit(n value, where string) {
 		i.violations[len(i.violations)-1].Where = where
 		// continue on the in-limit side
 		i.addPC(i.tc.Not(over))
-		if ok2, _ := i.feasible(i.tc.tt); !ok2 {
+		i.solver.push()
+		r := i.solver.check()
+		i.solver.pop()
+		if r != "sat" {
 			panic(pathAbort{"stop", "only over-limit allocation feasible"})
 		}
+		i.path.model = nil
 	}
 }
 
